@@ -34,15 +34,36 @@ def _inb(i, shape):
     return i.shape == (len(shape),) and i.dtype.kind in 'iu' and np.all(i >= 0) and np.all(i < np.array(shape))
 
 
+def plateau(shape, spike, corner):
+    """Ones on the sub-block of indices < n-1 (resp. > 0), one spike in the opposite corner, zeros elsewhere: the pruned beam
+    is attracted by the plateau, the second pass of optima_tt finds the spike."""
+    d = len(shape)
+    A, B = [], []
+    for k, n in enumerate(shape):
+        ind = np.ones(n)
+        e = np.zeros(n)
+        if corner == 'hi':
+            ind[n - 1] = 0
+            e[n - 1] = 1
+        else:
+            ind[0] = 0
+            e[0] = 1
+        A.append(ind.reshape(1, n, 1))
+        B.append((e * (spike if k == 0 else 1.0)).reshape(1, n, 1))
+    return teneva.add(A, B)
+
+
 def check_tensor(c):
     res = Res()
     seed = c.get('seed', 0)
-    Y = space.tt_case(c, seed)
+    Y = plateau(c['shape'], c['spike'], c['corner']) if c['pat'] == 'plateau' else space.tt_case(c, seed)
+    if c['pat'] == 'plateau':
+        c = dict(c, ranks=[1] + [2] * (len(c['shape']) - 1) + [1])
     Yb = ref.core_bytes(Y)
     A = ref.dense(Y)
     shape = list(A.shape)
     N = A.size
-    exact = space.is_int_pat(c['pat'])
+    exact = space.is_int_pat(c['pat']) or (c['pat'] == 'plateau' and float(c['spike']) == int(c['spike']))
     amax = float(np.abs(A).max())
     aabs = float(ref.dense_abs(Y).max())
     tmin, tmax = float(A.min()), float(A.max())
@@ -248,6 +269,10 @@ def strata(tier, seed):
             for rk in space.rank_profiles(d, rs):
                 for pat in pats:
                     cs.append(dict(shape=sh, ranks=rk, pat=pat, seed=seed))
+    for sh in ([3, 3, 3, 3], [4, 4, 4], [5, 5, 5, 5], [4, 4], [3, 3, 3]):
+        for spike in (2.5, -2.5, 3.0, -3.0, 1.5):
+            for corner in ('hi', 'lo'):
+                cs.append(dict(shape=sh, pat='plateau', spike=spike, corner=corner, ranks=[], seed=seed))
     yield Stratum('tt optimum search', cs, 'tensor', size=len(cs), chunk=4, bounds={'k': '1..N+1 (N<=16) else {1,2,3,N,N+1}'})
     qs = []
     for d in (1, 2, 3) if tier != 'quick' else (2, 3):
